@@ -320,7 +320,7 @@ def shard(ctx):
         g = gen.ExecGen(rng, reg_size=(size, size), max_depth=rng.choice([2, 3]), body_len=(1, 3) if not regm else (3, 6),
                         n_maps=(0, 4) if not regm else (2, 4), n_macros=(0, 3) if not regm else (1, 3),
                         p_overlap=rng.choice([0.0, 0.0, 0.3, 0.6]), p_idle=0.4, p_let_reg=0.25,
-                        p_let_index=0.4, p_reg_macro=0.7 if regm else 0.15)
+                        p_let_index=0.4, p_reg_macro=0.7 if regm else 0.15, p_shadow=rng.choice([0.35, 0.8]))
         prog = g.program()
         case = {"prog": prog, "permseed": rng.randrange(1 << 20)}
         if rng.random() < 0.3:
